@@ -1038,8 +1038,10 @@ def classify(ck, binary, disagree, optdiff, overflow, J, posfind=()):
             todo.append(it)
     # ---- 3. shrink what has no closed class yet, classify the minimum
     if todo:
-        ck.note('shrinking %d unexplained disagreements' % len(todo))
-        shrink_many(binary, todo, J)
+        ck.note('shrinking %d unexplained disagreements (at most 12 are minimised)' % len(todo))
+        for it in todo[12:]:
+            it['ast2'], it['s2'] = it['ast'], list(it['s'])
+        shrink_many(binary, todo[:12], J)
         cases2 = []
         for it in todo:
             it['trials2'] = trial_cases(it['c'], it['ast2'], it['s2'], 'min')
